@@ -1532,6 +1532,27 @@ val misused_class : bool -> n list -> n list
 
 val regex_prepare : n list -> n list
 
+val sh_safe : n -> bool
+
+val sh_escape : n list -> n list
+
+val t_EXPORT : n list
+
+val t_ECHO : n list
+
+val t_ECHO2 : n list
+
+val footer : n list -> n -> n list
+
+val export_lines : (n list * n list) list -> n list list option
+
+val test_blocks : n list -> bool -> n -> n list list -> n list list
+
+val script_join : n list list -> n list
+
+val compile_script :
+  n list -> bool -> (n list * n list) list -> n list list -> n list option
+
 val make_exp : bool -> bool -> (nat -> bool) -> nat exp
 
 val exp_opt : nat exp -> bool
